@@ -160,7 +160,13 @@ class Memory:
             if ty.kind == 'int': return 0
             if ty.kind == 'fp': return s.dom.const(0.0)
             return NULL
-        if ty.kind == 'ptr': raise MemError("uninitialised pointer read %s+%d" % (o.name, off))
+        if ty.kind == 'ptr':
+            # reading an indeterminate pointer is tolerated (it is what the hardware does); using it is not:
+            # the junk pointer names no object, so any dereference / free raises "wild pointer"
+            s.nfresh += 1
+            v = Ptr(-s.nfresh, 0)
+            o.cells[off] = (8, v)
+            return v
         # materialise the never-written bytes once, so that later reads and copies see the same (arbitrary) bits
         s._materialise_gaps(o, off, off + ty.size())
         e = o.cells.get(off)
